@@ -14,22 +14,31 @@ package rpcserver
 // or files in a run; fake timers only fire while the main goroutine is durably blocked, which it is
 // not while it polls). Real time is only used to decide how often to look.
 //
-// A run that ends in a hang cannot join the server's goroutines (a goroutine stuck in Lock cannot
-// be woken from outside). They are left behind and the worker process is "poisoned": from then on
-// every run uses this census instead of synctest.Wait(), the goroutines known to be stuck are
-// ignored, fake time can no longer advance (runs that need it are skipped as inconclusive), and
-// because the bubble can never end, the process leaves through exitWhenOutputWritten once the
-// worker's result file is complete.
+// AFTER the verdict "hang" the run still has to get rid of the server's goroutines (one bubble per
+// process; the next run needs a quiet bubble):
+//
+//  1. unstick: a goroutine stuck in sync.Mutex.Lock names the mutex in its stack record
+//     (internal/sync.(*Mutex).lockSlow(0x...)). The harness unlocks that mutex on behalf of whoever
+//     left it locked; the waiter proceeds, the call returns, everything is joined as usual. This is
+//     clean-up only: the verdict was reached before and does not depend on it.
+//  2. if that does not work (another kind of lock, a durable deadlock, an unreadable record) the
+//     goroutines are left behind and the process is "poisoned": from then on every run uses the
+//     census instead of synctest.Wait(), goroutines known to be stuck are ignored, fake time can no
+//     longer advance (runs that need it are skipped as inconclusive), and because the bubble can
+//     never end the process leaves through exitWhenOutputWritten once its result file is complete.
 
 import (
 	"bytes"
 	"encoding/json"
 	"os"
 	"runtime"
+	"sort"
+	"strconv"
 	"sync"
 	"sync/atomic"
 	"syscall"
 	"time"
+	"unsafe"
 
 	"jsim/sim"
 )
@@ -37,22 +46,17 @@ import (
 var (
 	poisonedFlag atomic.Bool         // a hang left goroutines behind in this process
 	staleLocked  = map[uint64]bool{} // goroutines known to be stuck acquiring a lock (main goroutine only)
-	hangsSeen    int
+	hangsLeft    int                 // hangs of this process whose goroutines were left behind
 	keepAlive    sync.Mutex
 	stackBuf     = make([]byte, 256<<10)
 )
 
-var (
-	debugDump = os.Getenv("JSIM_DBG_SEED") != ""
-	lastDump  string
-	inPoison  bool
-)
-
-// after this many hangs in one process, runs that could add another one are skipped
-const maxHangsPerProcess = 400
+// after this many hangs that left goroutines behind, runs that could add another one are skipped
+// (every census has to read the stacks of all of them)
+const maxHangsLeftBehind = 25
 
 type census struct {
-	active  int      // bubble goroutines that are running, runnable, or blocked in a way this file does not understand
+	active  int      // goroutines of the run that are running, runnable, or blocked in a way this file does not understand
 	durable int      // durably blocked
 	locked  []uint64 // blocked acquiring a sync lock, not yet known as stale
 }
@@ -64,9 +68,16 @@ var lockStates = map[string]bool{
 	"semacquire":         true,
 }
 
-// snapshot calls f for every goroutine the runtime lists except the calling one: its id, whether
-// its header carries the bubble's tag, and its status.
-func snapshot(f func(id uint64, tagged bool, status []byte, understood bool)) {
+type grec struct {
+	id         uint64
+	tagged     bool   // the header carries the bubble's tag
+	status     []byte // first element of the bracketed state
+	understood bool
+	body       []byte // the whole record
+}
+
+// snapshot calls f for every goroutine the runtime lists except the calling one.
+func snapshot(f func(g grec)) {
 	var n int
 	for {
 		n = runtime.Stack(stackBuf, true)
@@ -76,21 +87,17 @@ func snapshot(f func(id uint64, tagged bool, status []byte, understood bool)) {
 		stackBuf = make([]byte, 2*len(stackBuf))
 	}
 	s := stackBuf[:n]
-	if debugDump && !inPoison {
-		lastDump = string(s)
-	}
 	first := true
 	for len(s) > 0 {
-		eol := bytes.IndexByte(s, '\n')
-		line := s
-		if eol >= 0 {
-			line = s[:eol]
+		nxt := bytes.Index(s, []byte("\n\ngoroutine "))
+		body := s
+		if nxt >= 0 {
+			body = s[:nxt+1]
 		}
 		if !first { // the first record is the caller
-			parseHeader(line, f)
+			f(parseRecord(body))
 		}
 		first = false
-		nxt := bytes.Index(s, []byte("\n\ngoroutine "))
 		if nxt < 0 {
 			break
 		}
@@ -99,31 +106,35 @@ func snapshot(f func(id uint64, tagged bool, status []byte, understood bool)) {
 }
 
 // header: goroutine 22 [sync.Mutex.Lock, 2 minutes, synctest bubble 1]:
-func parseHeader(line []byte, f func(id uint64, tagged bool, status []byte, understood bool)) {
+func parseRecord(body []byte) grec {
+	g := grec{body: body}
+	line := body
+	if eol := bytes.IndexByte(body, '\n'); eol >= 0 {
+		line = body[:eol]
+	}
 	const pre = "goroutine "
 	if !bytes.HasPrefix(line, []byte(pre)) {
-		f(0, false, nil, false)
-		return
+		return g
 	}
 	rest := line[len(pre):]
-	var id uint64
 	i := 0
 	for i < len(rest) && rest[i] >= '0' && rest[i] <= '9' {
-		id = id*10 + uint64(rest[i]-'0')
+		g.id = g.id*10 + uint64(rest[i]-'0')
 		i++
 	}
 	open := bytes.IndexByte(rest, '[')
 	closeb := bytes.LastIndex(rest, []byte("]:"))
 	if i == 0 || open < 0 || closeb < open {
-		f(0, false, nil, false)
-		return
+		return g
 	}
 	state := rest[open+1 : closeb]
-	status := state
+	g.status = state
 	if k := bytes.Index(state, []byte(", ")); k >= 0 {
-		status = state[:k]
+		g.status = state[:k]
 	}
-	f(id, bytes.Contains(state, []byte("synctest bubble")), status, true)
+	g.tagged = bytes.Contains(state, []byte("synctest bubble"))
+	g.understood = true
+	return g
 }
 
 // foreign: goroutines that do not belong to the bubble (the test framework's, the exit watcher).
@@ -135,34 +146,36 @@ var foreign = map[uint64]bool{}
 // markForeign is called at the start of a run, before it starts any goroutine (goroutines left
 // behind by earlier hangs are blocked, hence not allocating, hence tagged).
 func markForeign() {
-	snapshot(func(id uint64, tagged bool, _ []byte, understood bool) {
-		if understood && !tagged {
-			foreign[id] = true
+	snapshot(func(g grec) {
+		if g.understood && !g.tagged {
+			foreign[g.id] = true
 		}
 	})
 }
 
-// takeCensus classifies every goroutine of the bubble except the calling one.
-func takeCensus() census {
-	var cs census
-	snapshot(func(id uint64, tagged bool, status []byte, understood bool) {
-		switch {
-		case !understood:
-			cs.active++ // never conclude anything from what is not understood
-		case !tagged:
-			if !foreign[id] {
-				cs.active++
-			}
-		case bytes.HasSuffix(status, []byte("(durable)")):
-			cs.durable++
-		case lockStates[string(status)]:
-			if !staleLocked[id] {
-				cs.locked = append(cs.locked, id)
-			}
-		default:
+func (cs *census) add(g grec) {
+	switch {
+	case !g.understood:
+		cs.active++ // never conclude anything from what is not understood
+	case !g.tagged:
+		if !foreign[g.id] {
 			cs.active++
 		}
-	})
+	case bytes.HasSuffix(g.status, []byte("(durable)")):
+		cs.durable++
+	case lockStates[string(g.status)]:
+		if !staleLocked[g.id] {
+			cs.locked = append(cs.locked, g.id)
+		}
+	default:
+		cs.active++
+	}
+}
+
+// takeCensus classifies every goroutine of the run except the calling one.
+func takeCensus() census {
+	var cs census
+	snapshot(func(g grec) { cs.add(g) })
 	return cs
 }
 
@@ -177,7 +190,7 @@ func realSleep(us int64) {
 	_ = syscall.Nanosleep(&ts, nil)
 }
 
-// settle returns when isDone() holds (finished=true) or when every other goroutine of the bubble is
+// settle returns when isDone() holds (finished=true) or when every other goroutine of the run is
 // blocked (finished=false; locked = how many of them are acquiring a lock, stale ones not counted).
 // spins = how often to merely yield before the first census.
 func settle(c *sim.Ctx, isDone func() bool, spins int) (finished bool, locked int) {
@@ -213,7 +226,59 @@ func settle(c *sim.Ctx, isDone func() bool, spins int) (finished bool, locked in
 
 func never() bool { return false }
 
-// poison is called when a run ends in a hang, after everything that can be released was released.
+// unstickOnce: call only when every goroutine of the run is blocked. For every goroutine stuck in
+// sync.Mutex.Lock it unlocks the mutex named in the goroutine's stack record (once per mutex).
+// ok=false: some goroutine is stuck on a lock whose address cannot be read.
+func unstickOnce() (unlocked int, ok bool) {
+	ok = true
+	addrs := map[uintptr]bool{}
+	snapshot(func(g grec) {
+		if !g.understood || !g.tagged || !lockStates[string(g.status)] || staleLocked[g.id] {
+			return
+		}
+		if string(g.status) != "sync.Mutex.Lock" {
+			ok = false
+			return
+		}
+		const mark = "internal/sync.(*Mutex).lockSlow(0x"
+		k := bytes.Index(g.body, []byte(mark))
+		if k < 0 {
+			ok = false
+			return
+		}
+		arg := g.body[k+len(mark):]
+		e := bytes.IndexByte(arg, ')')
+		if e <= 0 { // also refuses "0x...?" (a value the runtime is not sure about) via ParseUint below
+			ok = false
+			return
+		}
+		a, err := strconv.ParseUint(string(arg[:e]), 16, 64)
+		if err != nil || a == 0 {
+			ok = false
+			return
+		}
+		addrs[uintptr(a)] = true
+	})
+	if !ok {
+		return 0, false
+	}
+	list := make([]uintptr, 0, len(addrs))
+	for a := range addrs {
+		list = append(list, a)
+	}
+	sort.Slice(list, func(i, j int) bool { return list[i] < list[j] })
+	for _, a := range list {
+		// sync.Mutex{_ noCopy; mu isync.Mutex}: both start at the same address. The object is alive:
+		// a goroutine is parked on it. It is locked: with every goroutine blocked, a waiter parked
+		// on an unlocked mutex would have been woken by the Unlock that released it.
+		mu := *(**sync.Mutex)(unsafe.Pointer(&a)) // the address comes from the runtime's own stack record
+		mu.Unlock()
+		unlocked++
+	}
+	return unlocked, true
+}
+
+// poison is called when a run ended in a hang and its goroutines could not be got moving again.
 func poison(c *sim.Ctx) {
 	if !poisonedFlag.Load() {
 		poisonedFlag.Store(true)
@@ -222,9 +287,7 @@ func poison(c *sim.Ctx) {
 		keepAlive.Lock()
 		go keepAlive.Lock()
 	}
-	hangsSeen++
-	inPoison = true
-	defer func() { inPoison = false }()
+	hangsLeft++
 	_, _ = settle(c, never, 0)
 	for _, id := range takeCensus().locked {
 		staleLocked[id] = true
